@@ -118,6 +118,24 @@ def r15_2(ctx):
         fi, outs = r.run(cb, lambda r=r, k=k: reject_specs(r)[k][2])
         obs = sorted({("raises " + str(o.value)) if o.kind == "raise" else ("returns " + (o.value.cls if isinstance(o.value, AObj) else type(o.value).__name__)) for o in outs})
         ctx.check(f"{desc} is rejected", all(o.kind == "raise" for o in outs) and outs, "raises", "; ".join(obs), fn_where(idx, fi))
+    # a call that yields no value (void) in a value position: its effect could never be sequenced (the consumer is a value), so
+    # it has to be rejected - by the type accessors, which the conversion helpers read
+    def void_call(r, label):
+        return AObj("SubRoutineCall", {"value_type": mk_vt("tvoid", False, 32, ("VOID",)), "name": label, "ops": [], "effect_ops": []}, label=label, opaque=True)
+
+    void_specs = [
+        ("source of an assignment", "assignment_expr", lambda r: [r.pure("items[0]", vt=mk_vt("t0", True, 32), cls="LocalVar"), Tok("ASSIGN_OP", "="), void_call(r, "items[2]")]),
+        ("operand of +", "additive_expr", lambda r: [r.pure("items[0]", vt=mk_vt("t0", True, 32)), Tok("ADD_OP", "+"), void_call(r, "items[2]")]),
+        ("then-arm of ?:", "conditional_expr", lambda r: [r.pure("items[0]"), void_call(r, "items[1]"), r.pure("items[2]", vt=mk_vt("t2", True, 32))]),
+        ("both arms of ?:", "conditional_expr", lambda r: [r.pure("items[0]"), void_call(r, "items[1]"), void_call(r, "items[2]")]),
+        ("operand of a cast", "cast_expr", lambda r: [mk_vt("T", True, 64), void_call(r, "items[1]")]),
+    ]
+    for desc, cb, mk in void_specs:
+        r = Runner(idx, keep_real=("cast_operands", "promotion_cast", "init_a_cast"))
+        r.fold = False
+        fi, outs = r.run(cb, lambda r=r, mk=mk: mk(r))
+        obs = sorted({("raises " + str(o.value)[:30]) if o.kind == "raise" else ("returns " + (o.value.cls if isinstance(o.value, AObj) else type(o.value).__name__)) for o in outs})
+        ctx.check(f"a void call as {desc} is rejected", bool(outs) and all(o.kind == "raise" for o in outs), "raises", "; ".join(obs), fn_where(idx, fi))
     # the productions of these constructs reach those callbacks (not inlined away, not raw trees)
     for rname, first in (("labeled_stmt", None), ("jump_stmt", None), ("iteration_stmt", None)):
         shapes = {gm.shape(a, cbs)[0] for a in gm.rules[rname]}
